@@ -92,6 +92,37 @@ func runSolvers(file string, timeoutS int) solveResult {
 	return best
 }
 
+// runSolversAll runs every installed solver to completion (thorough tier: cross-solver agreement).
+func runSolversAll(file string, timeoutS int) map[string]string {
+	out := map[string]string{}
+	var mu sync.Mutex
+	var wg sync.WaitGroup
+	for _, s := range solvers {
+		s := s
+		wg.Add(1)
+		go func() {
+			defer wg.Done()
+			argv := s.argv(file, timeoutS)
+			cmd := exec.Command(argv[0], argv[1:]...)
+			var b bytes.Buffer
+			cmd.Stdout = &b
+			cmd.Stderr = &b
+			cmd.Run()
+			first := strings.TrimSpace(strings.SplitN(b.String(), "\n", 2)[0])
+			st := "unknown"
+			switch first {
+			case "unsat", "sat":
+				st = first
+			}
+			mu.Lock()
+			out[s.name] = st
+			mu.Unlock()
+		}()
+	}
+	wg.Wait()
+	return out
+}
+
 func firstLine(s string) string {
 	return strings.TrimSpace(strings.SplitN(s, "\n", 2)[0])
 }
@@ -113,6 +144,8 @@ func safeFile(name string) string {
 }
 
 // discharge runs all obligations in parallel.
+var crossCheck bool // thorough tier: every discharged obligation is re-run on all solvers
+
 func discharge(obls []*Obligation, dir string, timeoutS int, workers int) {
 	os.MkdirAll(dir, 0o755)
 	var wg sync.WaitGroup
@@ -134,6 +167,20 @@ func discharge(obls []*Obligation, dir string, timeoutS int, workers int) {
 				o.Model = r.output
 			} else if r.status == "error" {
 				o.Model = r.output
+			}
+			if crossCheck && r.status == "unsat" {
+				all := runSolversAll(file, timeoutS)
+				n := 0
+				for _, st := range all {
+					if st == "unsat" {
+						n++
+					}
+					if st == "sat" {
+						o.Status = "solver-disagreement"
+						o.Model = fmt.Sprintf("solvers disagree on this query: %v", all)
+					}
+				}
+				o.Agree = n
 			}
 			// vacuity guard for contract obligations: the path condition itself must be satisfiable
 			if r.status == "unsat" && coverKinds[o.Kind] {
